@@ -423,23 +423,46 @@ Definition agglom_groups (lv : list tree) : list (list tree) :=
 Definition agglom_round (lv : list tree) : option (list tree) :=
   map_opt (contract_list sub) (agglom_groups lv).
 
-(* while len(leaves) > groupsize: ... ; fuel exhausted = None *)
+(* build_agglom as it is in /repo since commit 001d170:
+     while len(leaves) > groupsize:
+         groups = separate(leaves, membership)
+         if len(groups) >= len(leaves): break
+         leaves = [tree.contract_nodes(group) for group in groups]
+   fuel exhausted = None (proved impossible with fuel = number of leaves) *)
 Fixpoint agglom_loop (fuel : nat) (lv : list tree) : option (list tree) :=
   if Nat.ltb groupsize (length lv) then
     match fuel with
     | 0 => None
-    | S f => match agglom_round lv with
-             | Some lv' => agglom_loop f lv'
-             | None => None
-             end
+    | S f => if Nat.leb (length lv) (length (agglom_groups lv)) then Some lv   (* break *)
+             else match agglom_round lv with
+                  | Some lv' => agglom_loop f lv'
+                  | None => None
+                  end
     end
   else Some lv.
-Definition build_agglom (fuel n : nat) : option tree :=
-  match agglom_loop fuel (leaf_forest n) with
+(* if len(leaves) > 1: tree.contract_nodes(leaves) *)
+Definition build_agglom (n : nat) : option tree :=
+  match agglom_loop n (leaf_forest n) with
   | Some lv => match lv with [t] => Some t | _ => contract_list sub lv end
   | None => None
   end.
 
+(* the loop BEFORE commit 001d170 (finding 17), kept for the non-termination theorem *)
+Fixpoint agglom_loop_old (fuel : nat) (lv : list tree) : option (list tree) :=
+  if Nat.ltb groupsize (length lv) then
+    match fuel with
+    | 0 => None
+    | S f => match agglom_round lv with
+             | Some lv' => agglom_loop_old f lv'
+             | None => None
+             end
+    end
+  else Some lv.
+Definition build_agglom_old (fuel n : nat) : option tree :=
+  match agglom_loop_old fuel (leaf_forest n) with
+  | Some lv => match lv with [t] => Some t | _ => contract_list sub lv end
+  | None => None
+  end.
 End Agglom.
 
 (* membership oracle replaying the recorded partition of each round (keyed by the
@@ -449,29 +472,3 @@ Definition memb_of_table (tbl : list (list nset * list nat)) (l : list nset) : l
   | Some (_, m) => m
   | None => seq 0 (length l)
   end.
-
-Section AgglomFixed.
-Variable sub : list nset -> path.
-Variable memb_fn : list nset -> list nat.
-Variable groupsize : nat.
-Let agglom_groups := agglom_groups memb_fn.
-Let agglom_round := agglom_round sub memb_fn.
-
-(* the proposed repair: a round that merges nothing contracts the remainder *)
-Fixpoint agglom_loop_fixed (fuel : nat) (lv : list tree) : option (list tree) :=
-  if Nat.ltb groupsize (length lv) then
-    match fuel with
-    | 0 => None
-    | S f => if Nat.leb (length lv) (length (agglom_groups lv)) then Some lv   (* break *)
-             else match agglom_round lv with
-                  | Some lv' => agglom_loop_fixed f lv'
-                  | None => None
-                  end
-    end
-  else Some lv.
-Definition build_agglom_fixed (n : nat) : option tree :=
-  match agglom_loop_fixed n (leaf_forest n) with
-  | Some lv => match lv with [t] => Some t | _ => contract_list sub lv end
-  | None => None
-  end.
-End AgglomFixed.
